@@ -78,7 +78,18 @@ def programs(draw):
     ops.extend([['start']] * max(0, n - sum(1 for o in ops if o[0] == 'start')))
     ops.append(['tick', 3])
     heal_credit = draw(st.sampled_from([False, False, False, True]))
-    if draw(st.integers(0, 2)) == 0:
+    if draw(st.integers(0, 7)) == 0:
+        # large grants against a long source: 150-300 small elements, credit in steps of 65..200 (not only 1..30)
+        i = draw(st.integers(0, n - 1))
+        big = draw(st.sampled_from([150, 200, 300]))
+        key = 'src' if inter[i].get('src') else ('rsrc' if inter[i].get('rsrc') else None)
+        if key:
+            inter[i][key] = dict(inter[i][key], els=[[1, 0]] * big, awaits=0)
+            skey = 'sub' if key == 'src' else 'rsub'
+            inter[i][skey] = {'n0': draw(st.sampled_from([65, 70, 100, 127, 128, 129, 200])), 'refill': 0}
+            ops += [['tick', 6], ['req', i, 'resp' if key == 'src' else 'req', draw(st.sampled_from([65, 70, 100, 130]))], ['tick', 12]]
+            heal_credit = False
+    elif draw(st.integers(0, 2)) == 0:
         # the last word on credit: a grant, a second one while the first is still being served, then silence - everything
         # that was granted has to be delivered without any further REQUEST_N
         i = draw(st.integers(0, n - 1))
